@@ -334,6 +334,29 @@ def main(tier, seed):
                 disagreements += 1
                 res.violation("model main()/process_options and check-express disagree under %s: model %s tool %s" % (opts, mprinted, got),
                               {"theorem_or_correspondence": "correspondence C20: coq/ExpErr.v process_options vs fedex.c/error.c"}, found_input=False)
+    # ---- buffered output (-B): the diagnostics of a faulty schema are the same, each once, as without -B - also when a fatal
+    # one (a syntax error) makes the buffer be flushed before the end
+    bcases = [("syntax_error_after_lexical_ones", "SCHEMA b1;\nENTITY a;\n  x : INTEGER;\n  $\nEND_ENTITY;\nENTITY b;\n  _y : INTEGER;\n  z  INTEGER;\nEND_ENTITY;\nEND_SCHEMA;\n"),
+              ("syntax_error_alone", "SCHEMA b2;\nENTITY a;\n  x  INTEGER;\nEND_ENTITY;\nEND_SCHEMA;\n"),
+              ("three_undefined_types", "SCHEMA b3;\nENTITY a;\n  x : nosuch1;\n  y : nosuch2;\n  z : nosuch3;\nEND_ENTITY;\nEND_SCHEMA;\n"),
+              ("two_syntax_errors_in_two_schemas", "SCHEMA b4;\nENTITY a;\n  x  INTEGER;\nEND_ENTITY;\nEND_SCHEMA;\nSCHEMA b5;\nENTITY c;\n  _q : INTEGER;\n  y  REAL;\nEND_ENTITY;\nEND_SCHEMA;\n")]
+    for (_c, d_, t_, _e) in catalogue[:12 if tier == "quick" else len(catalogue)]:
+        bcases.append((os.path.basename(d_), t_))
+    for (bname, btext) in bcases:
+        fb = os.path.join(wdir, "buffered.exp")
+        open(fb, "w", encoding="latin-1").write(btext)
+        outs = {}
+        for opt in ([], ["-B"]):
+            rcb, ob, eb = sh([os.path.join(bdir, "bin", "check-express")] + opt + [fb], timeout=60, cwd=wdir)
+            outs[bool(opt)] = (rcb, sorted(re.findall(r"(ERROR|WARNING) PE(\d+)", ob + eb)))
+        evals += 1
+        hist["buffered_compared"] = hist.get("buffered_compared", 0) + 1
+        if outs[True] != outs[False]:
+            oracle_fail += 1
+            pth_ = save("c20-buffered-%s.exp" % re.sub(r"\W", "_", bname)[:50], btext)
+            res.violation("with -B the diagnostics of %s are %s (status %d), without it %s (status %d)" % (
+                bname, ["PE" + c for _k, c in outs[True][1]], outs[True][0], ["PE" + c for _k, c in outs[False][1]], outs[False][0]),
+                {"input_file": pth_, "replay": "%s/bin/check-express -B %s" % (bdir, pth_)})
     shutil.rmtree(wdir, ignore_errors=True)
     if not pr["ok"]:
         res.violation("Properties_C20.v no longer checks (%s)" % ", ".join(pr["failed"] or ["see log"]),
@@ -350,7 +373,7 @@ def main(tier, seed):
         "traces_validated_against_impl": evals,
         "correspondence_disagreements": disagreements,
         "oracle_failures": oracle_fail,
-        "unproved_clauses": ["quoted text = offending token (tested on mutants)", "buffered mode (-B) heap ordering"],
+        "unproved_clauses": ["quoted text = offending token (tested on mutants)", "buffered mode (-B): same diagnostics as unbuffered (tested on faulty schemas; order not compared)"],
     })
     res.assumptions = ["unbuffered diagnostics (default)"]
     return res.finish()
